@@ -186,6 +186,23 @@ impl ToRange for Expression { #[verifier::external_body] fn to_range(&self) -> (
         Fn(EX, "hang_expression_trailing_newline", contract="""
     requires wf(skel(*expression)),""" + post("C05.hang_expression_nl", "*expression", "ExpressionContext::Standard")),
         Fn(EX, "is_string", mode="verify", contract="decreases expression,"),
+        Raw("""
+pub open spec fn prefix_post(p: Prefix, r: Prefix) -> bool {
+    match p {
+        Prefix::Expression(e) => match r {
+            Prefix::Expression(re) => same_tree(*e, *re) && wf(skel(*re)) && no_double_minus(skel(*re)) && (fits(skel(*e), Pos::PrefixPos) ==> fits(skel(*re), Pos::PrefixPos)),
+            _ => false,
+        },
+        Prefix::Name(t) => match r { Prefix::Name(rt) => tok_of(rt) == tok_of(t), _ => false },
+        _ => true,
+    }
+}
+pub open spec fn prefix_wf(p: Prefix) -> bool { match p { Prefix::Expression(e) => wf(skel(*e)), _ => true } }
+""", module="formatters::expression"),
+        Fn(EX, "format_prefix", contract="""
+    requires prefix_wf(*prefix),
+    ensures prefix_post(*prefix, r), //# C05.prefix_keeps_parens
+"""),
         Fn(EX, "is_brackets_string", mode="verify", contract="decreases expression,"),
     ]
 
@@ -194,6 +211,7 @@ LABELS = {
     "C05.cep_keeps_multivalue_if_binop": dict(props=["C05", "C02"], text="calls, `...`, if-expressions and binary operations never lose their parentheses"),
     "C01.double_minus_guard": dict(props=["C01", "C05"], text="the operand handed back for a unary minus is never itself a bare unary minus"),
     "C05.hanging_lhs_context": dict(props=["C05", "C02"], text="the context the hanging path gives to a left operand soundly describes `left operand of this operator` (in particular BinaryLHSExponent for `^`)"),
+    "C05.prefix_keeps_parens": dict(props=["C05", "C02"], text="format_prefix (both layout paths): a parenthesised prefix expression keeps its parentheses; operator tree preserved"),
     "C05.format_expression": dict(props=["C05", "C02", "C01"], text="format_expression: operator tree preserved modulo redundant parentheses, output re-parse-stable, no `--`"),
     "C05.single_line.erase": dict(props=["C05", "C02"], text="format_expression_internal (single-line path): operator tree preserved modulo redundant parentheses; call/`...` parentheses kept"),
     "C05.single_line.wf": dict(props=["C05", "C02", "C01"], text="single-line path: the output tree re-parses to itself (every operand fits its position)"),
